@@ -28,7 +28,8 @@ CONSTANTS
   Addrs = {%(addrs)s}
   Reqs = {r1, r2}
   Successor = %(succ)s
-  Deviations = {}
+  Alphabet = "%(alphabet)s"
+  Deviations = {%(dev)s}
 %(checks)s
 CHECK_DEADLOCK FALSE
 """
@@ -48,6 +49,7 @@ CONSTANTS
   Addrs = {1, 2, 3}
   Reqs = {1, 2}
   Successor = %(succ)s
+  Alphabet = "response"
   Deviations = {}
 INVARIANTS TypeOK P_C10
 CONSTRAINT Track
@@ -67,9 +69,23 @@ def _write(wd, name, text):
 
 def _scenario_class(run):
     c = run.get("cfg", {})
+
+    def slot(s):
+        d = [s.get("stage"), s.get("partial"), s.get("release")]
+        if s.get("resp"):          # response stages: how the response is framed, whether the backend closes, which stream
+            d += [s["resp"].get("framing"), s["resp"].get("close"), bool(s.get("big_first"))]
+        return d
     return json.dumps([c.get("mode"), c.get("order"), c.get("crash"), c.get("deadline_s"),
-                       [a.get("proto") for a in c.get("addrs", [])],
-                       [[s.get("stage"), s.get("partial"), s.get("release")] for s in c.get("slots", [])]])
+                       [a.get("proto") for a in c.get("addrs", [])], [slot(s) for s in c.get("slots", [])]])
+
+
+def _clean(o):
+    """what TLC reads: no JSON null (the Json module cannot convert it), no measurements of the set-up"""
+    if isinstance(o, dict):
+        return {k: _clean(v) for k, v in o.items() if v is not None and k not in ("setup", "diagnosis")}
+    if isinstance(o, list):
+        return [_clean(v) for v in o]
+    return o
 
 
 def _next_event(run, stuck):
@@ -101,7 +117,7 @@ def _validate(rep, wd, name, runs, succ, consts, max_rounds):
         path = os.path.join(wd, "%s_%d.ndjson" % (name, rounds))
         with open(path, "w") as f:
             for r in todo:
-                f.write(json.dumps(r) + "\n")
+                f.write(json.dumps(_clean(r)) + "\n")
         cfg = _write(wd, "trace_%s.cfg" % name, TRACE_CFG % dict(consts, succ=succ))
         r = vlib.tlc_trace("Trace_Handover", cfg, PID, path, timeout=1500)
         rep.add_tlc(r)
@@ -164,18 +180,37 @@ def run(tier, replay=None):
 
     # ---- 2. design level (in the background, next to the conformance legs)
     a3 = "a1, a2, a3"
+    req = dict(consts, alphabet="request", dev="")
+    rsp = dict(consts, alphabet="response", dev="")
+    a_resp = a3 if thorough else "a1, a2"      # the response stages do not interact with the listeners
     mc_jobs = [
-        ("mc_handover", MC_CFG % dict(consts, spec="Spec", addrs=a3, succ="TRUE", checks=SAFETY)),
-        ("mc_softstop", MC_CFG % dict(consts, spec="Spec", addrs=a3, succ="FALSE", checks=SAFETY)),
-        ("live_handover", MC_CFG % dict(consts, spec="FairSpec", addrs=(a3 if thorough else "a1, a2"), succ="TRUE", checks=LIVE)),
-        ("live_softstop", MC_CFG % dict(consts, spec="FairSpec", addrs="a1, a2", succ="FALSE", checks="PROPERTIES P_C10d_StopTerminates")),
+        ("mc_handover", MC_CFG % dict(req, spec="Spec", addrs=a3, succ="TRUE", checks=SAFETY)),
+        ("mc_softstop", MC_CFG % dict(req, spec="Spec", addrs=a3, succ="FALSE", checks=SAFETY)),
+        ("live_handover", MC_CFG % dict(req, spec="FairSpec", addrs=(a3 if thorough else "a1, a2"), succ="TRUE", checks=LIVE)),
+        ("live_softstop", MC_CFG % dict(req, spec="FairSpec", addrs="a1, a2", succ="FALSE", checks="PROPERTIES P_C10d_StopTerminates")),
+        # the same protocol with the slots in the stages of the RESPONSE (awaiting it, streaming, tail buffered)
+        ("mc_resp_handover", MC_CFG % dict(rsp, spec="Spec", addrs=a_resp, succ="TRUE", checks=SAFETY)),
+        ("mc_resp_softstop", MC_CFG % dict(rsp, spec="Spec", addrs=a_resp, succ="FALSE", checks=SAFETY)),
+        ("live_resp_softstop", MC_CFG % dict(rsp, spec="FairSpec", addrs="a1, a2", succ="FALSE", checks="PROPERTIES P_C10d_StopTerminates")),
     ]
+    if thorough:
+        mc_jobs.append(("live_resp_handover", MC_CFG % dict(rsp, spec="FairSpec", addrs="a1, a2", succ="TRUE", checks=LIVE)))
     pool = concurrent.futures.ThreadPoolExecutor(max_workers=4)
     futs = {}
     for name, text in mc_jobs:
         cfg = _write(wd, name + ".cfg", text)
         futs[name] = pool.submit(vlib.tlc, "Handover", cfg, PID, 3 if not thorough else 6, 2400, None, None,
-                                 name == "mc_handover" and thorough)
+                                 name in ("mc_handover", "mc_resp_handover") and thorough)
+
+    # self-test of P_C10b: the defect class "a session is taken for finished before its response is flushed"
+    # (deviation QuiescedBeforeFlushed) must be refuted by TLC, else the response stages bind nothing
+    dcfg = _write(wd, "dev_quiesced.cfg", MC_CFG % dict(consts, alphabet="response", dev='"QuiescedBeforeFlushed"', spec="Spec",
+                                                        addrs="a1", succ="FALSE", checks="INVARIANTS TypeOK P_C10"))
+    rd = vlib.tlc("Handover", dcfg, PID, workers=2, timeout=600)
+    if not rd["violated"]:
+        raise vlib.ToolError("deviation QuiescedBeforeFlushed is not refuted by P_C10: the response stages bind nothing")
+    vlib.log("deviation QuiescedBeforeFlushed: TLC counterexample to %s as expected" % rd["violated"])
+    rep.extra["deviation_selftest"] = {"QuiescedBeforeFlushed": rd["violated"]}
 
     # ---- 3. codec leg
     gen_cfg = _write(wd, "codec_gen.cfg", CODEC_CFG % dict(consts, full="TRUE" if thorough else "FALSE", salt=vlib.seed() % 1000))
@@ -256,8 +291,17 @@ def run(tier, replay=None):
                              "hammer_exchanges": raw,
                              "crash_scenarios": len([r for r in good if r["cfg"]["crash"] != "none"]),
                              "deadline_scenarios": len([r for r in good if r["cfg"]["deadline_s"]])}
-    for r in good[:1]:
-        rep.add_samples([{"scenario": json.loads(_scenario_class(r)), "ctl": [e.get("e") for e in r["ctl"]]}], 1)
+    # response delivery: how many parked responses really had their tail held by the worker when the stop came
+    tails = [e for r in good for e in r.get("ctl", []) if e.get("e") == "SlotEnd" and "total" in e and e.get("setup")]
+    held = [e for e in tails if isinstance(e.get("held"), int) and e["held"] > 600]
+    resp_runs = [r for r in good if any(s.get("resp") for s in r["cfg"].get("slots", []))]
+    rep.extra["protocol"].update({"response_scenarios": len(resp_runs), "tail_slots": len(tails), "tail_slots_held_by_worker": len(held),
+                                  "held_bytes_min_max": [min([e["held"] for e in held] or [0]), max([e["held"] for e in held] or [0])]})
+    if len(tails) >= 4 and len(held) * 2 < len(tails):
+        raise vlib.ToolError("only %d of %d parked responses had their tail in the worker when the stop came: the response leg is vacuous on this run"
+                             % (len(held), len(tails)))
+    for r in (good[:1] + resp_runs[:1]):
+        rep.add_samples([{"scenario": json.loads(_scenario_class(r)), "ctl": [e.get("e") for e in r["ctl"]]}], 2)
 
     # ---- 5. canaries: the binding must reject corrupted runs
     if not rep.violations:
@@ -279,11 +323,22 @@ def run(tier, replay=None):
                     e["pairs"][0]["bound"] = 0   # a descriptor that is not bound to its address
                     break
             can.append(("wrong-socket", c3))
+            # a parked response that ends short but clean / is cut although nobody died and no deadline passed
+            rbase = next((r for r in hand + soft if r["cfg"]["crash"] == "none" and
+                          any(e.get("e") == "SlotEnd" and "total" in e and e.get("out") == "done" for e in r["ctl"])), None)
+            if rbase is not None:
+                for cname, out in (("short-response", "short"), ("cut-response", "cut")):
+                    c4 = json.loads(json.dumps(rbase))
+                    for e in c4["ctl"]:
+                        if e.get("e") == "SlotEnd" and "total" in e and e.get("out") == "done":
+                            e["out"], e["by"] = out, "none"
+                            break
+                    can.append((cname, c4))
             for cname, cr in can:
                 path = os.path.join(wd, "canary_%s.ndjson" % cname)
                 with open(path, "w") as f:
-                    f.write(json.dumps(cr) + "\n")
-                cfg = _write(wd, "trace_canary.cfg", TRACE_CFG % dict(consts, succ="TRUE"))
+                    f.write(json.dumps(_clean(cr)) + "\n")
+                cfg = _write(wd, "trace_canary.cfg", TRACE_CFG % dict(consts, succ="TRUE" if cr["cfg"]["mode"] == "handover" else "FALSE"))
                 r = vlib.tlc_trace("Trace_Handover", cfg, PID, path, timeout=600)
                 if r["accepted"]:
                     raise vlib.ToolError("canary %s was accepted: the trace specification binds nothing" % cname)
@@ -305,6 +360,8 @@ def run(tier, replay=None):
                 rep.violations.insert(0, rep.violations.pop())     # design-level verdicts first
         if name == "mc_handover" and thorough and not r["violated"]:
             vlib.require_actions_covered(r, need)
+        if name == "mc_resp_handover" and thorough and not r["violated"]:
+            vlib.require_actions_covered(r, ["Backend_SendPart", "Backend_Finish", "Client_ReadSome", "Old_ShutDownSessions", "Old_Die", "Tick_Deadline"])
     pool.shutdown()
 
     rep.cov["traces_validated_against_impl"] = acc + summ["delivered"]
